@@ -79,28 +79,25 @@ def encodeVarint (value : Int) : Py (List Nat) :=
           | none => .error .indexError            -- byte_array[-1] on an empty array
           | some l => .ok (acc.dropLast ++ [l &&& 0x7F])
 
-/-- result of `decode_varint_in_reverse`, which may *return* an exception object -/
-inductive RevResult where
-  | value (v : Nat) (start : Nat)
-  | errObject
-  deriving DecidableEq, Repr
-
-/-- the `while offset - inv - 1 >= 0` loop; `rem = offset - inv` -/
-def dvrLoop (b : Buf) (offset max : Nat) : Nat → Nat → RevResult
-  | 0, v => .value v 0
+/-- the `while offset - inv - 1 >= 0` loop of `decode_varint_in_reverse`; `rem = offset - inv`.
+More than `max` bytes read with a further byte still in front raises `InvalidVarIntError`
+(after the fix: commit; the pinned tree RETURNED the exception object). -/
+def dvrLoop (b : Buf) (offset max : Nat) : Nat → Nat → Py (Nat × Nat)
+  | 0, v => .ok (v, 0)
   | rem+1, v =>
     let inv := offset - (rem + 1)
-    if inv > max then .errObject
+    if inv > max then .error .parseError
     else
       let byte := b.rd rem
       if byte &&& 0x80 ≠ 0 then
         dvrLoop b offset max rem (v ||| ((byte &&& 0x7F) <<< (7 * inv)))
-      else .value v (rem + 1)
+      else .ok (v, rem + 1)
 
-def decodeVarintRev (b : Buf) (offset : Nat) (max : Nat := 9) : Py RevResult :=
+/-- `decode_varint_in_reverse(byte_array, offset, max_varint_length)` → (value, start offset) -/
+def decodeVarintRev (b : Buf) (offset : Nat) (max : Nat := 9) : Py (Nat × Nat) :=
   if offset > b.size then .error .valueError
   else if offset = 0 then .error .typeError      -- ord(b[-1:0]) = ord(b'')
-  else .ok (dvrLoop b offset max (offset - 1) (b.rd (offset - 1) &&& 0x7F))
+  else dvrLoop b offset max (offset - 1) (b.rd (offset - 1) &&& 0x7F)
 
 /-- `get_content_size(serial_type)`; the blob branch returns a float in Python with the same
 numeric value (exact below 2^53). -/
